@@ -420,7 +420,7 @@ Inductive oblig :=
 | OArg (a f : cty)                 (* actual vs parameter type *)
 | OLval (c : bool)                 (* an assignment / reduction target reached through a (non-)const pointer *)
 | OInit (cb ct : bool)             (* window struct literal: data pointer of const-ness cb stored into a field of const-ness ct *)
-| OCrash.                          (* the compiler would raise KeyError here *)
+| OCrash.                          (* unbound name / arity mismatch: the compiler would raise here (a kind failure) *)
 
 Definition carg_obl (d : prec) (NC : list ident) (G : env) (a : carg) (written : bool) (f : farg) : list oblig :=
   match a with
@@ -493,8 +493,7 @@ Definition prec_of_cty (t : cty) : option prec :=
 Definition compat_prec (a f : cty) : bool :=
   match prec_of_cty a, prec_of_cty f with
   | Some p, Some q => prec_eqb p q
-  | None, None => true
-  | _, _ => false
+  | _, _ => true            (* a control value on either side: a kind question, see compat_kind *)
   end.
 Definition compat_kind (a f : cty) : bool :=
   match a, f with
@@ -515,7 +514,6 @@ Definition ok_prec (o : oblig) : bool :=
   | OExpr e => wt_e e
   | OAsg lt decl => prec_eqb lt decl && negb (is_R lt)
   | OArg a f => compat_prec a f
-  | OCrash => false
   | _ => true
   end.
 Definition ok_kind (o : oblig) : bool :=
@@ -525,7 +523,6 @@ Definition ok_const (o : oblig) : bool :=
   | OArg a f => compat_const a f
   | OLval c => negb c
   | OInit cb ct => implb cb ct
-  | OCrash => false
   | _ => true
   end.
 
